@@ -76,6 +76,18 @@ def classify_pair(op, ta, a, tb, b):
     return '/'.join(f)
 
 
+def _p(prim, *args):
+    return {'prim': prim, 'args': list(args)} if args else {'prim': prim}
+
+
+ARITH_POISON = [
+    [_p('PUSH', {'prim': 'mutez'}, {'int': str(2 ** 63 - 1)}), _p('PUSH', {'prim': 'mutez'}, {'int': '1'}), _p('PUSH', {'prim': 'nat'}, {'int': '0'}), _p('DIP', [_p('ADD')])],
+    [_p('PUSH', {'prim': 'nat'}, {'int': '1'}), _p('PUSH', {'prim': 'nat'}, {'int': '257'}), _p('PUSH', {'prim': 'nat'}, {'int': '0'}), _p('DIP', [_p('LSL')])],
+    [_p('PUSH', {'prim': 'mutez'}, {'int': str(2 ** 62)}), _p('PUSH', {'prim': 'nat'}, {'int': '2'}), _p('PUSH', {'prim': 'nat'}, {'int': '0'}), _p('PUSH', {'prim': 'nat'}, {'int': '0'}),
+     _p('DIP', {'int': '2'}, [_p('MUL')])],
+]
+
+
 def judge(ctx, op, ta, a, tb, b):
     code = []
     if tb is not None:
@@ -86,8 +98,19 @@ def judge(ctx, op, ta, a, tb, b):
     label = '%s %s%s' % (op, ta, '/' + tb if tb else '')
     ctx.case((op, ta, repr(a), tb, repr(b)), nontrivial=True)
     ctx.count('op_' + op)
-    out = L.run_both(code)
-    case = {'code': code}
+    it = None
+    poison = None
+    if ctx.evaluations % 7 == 3:
+        # the same operation on an interpreter whose previous cell failed arithmetically inside a protected region
+        from rv.hooks import drive as D_
+        poison = ARITH_POISON[ctx.evaluations % len(ARITH_POISON)]
+        it = D_.new_interpreter()
+        if it.execute(poison).error is None:
+            it, poison = None, None
+        else:
+            ctx.count('operations_run_after_a_failed_cell_on_the_same_interpreter')
+    out = L.run_both(code, interp=it)
+    case = {'code': code, 'poison': poison}
     if out.kind == 'agree':
         ctx.count('agree')
         if out.model.kind != 'ok':
@@ -144,12 +167,18 @@ def run(ctx):
                 i += 1
                 if ctx.mine(i):
                     judge(ctx, op, ta, a, None, None)
+    ctx.require('operations_run_after_a_failed_cell_on_the_same_interpreter', 50)
     ctx.require('agree', 500)
     ctx.require('agreed_failures', 5)
     ctx.require('agreed_None_results', 5)
 
 
 def replay(ctx, case):
-    out = L.run_both(case['code'])
+    it = None
+    if case.get('poison'):
+        from rv.hooks import drive as D_
+        it = D_.new_interpreter()
+        it.execute(case['poison'])
+    out = L.run_both(case['code'], interp=it)
     if out.kind == 'violation':
         ctx.violation('C16|replay|' + str(out.sig), out.detail, case)
